@@ -36,7 +36,14 @@ def K(**kw):
 
 
 def kkey(k):
-    return tuple(sorted((a, tuple(sorted(b)) if isinstance(b, frozenset) else b) for a, b in k.items()))
+    def fz(b):
+        if isinstance(b, frozenset):
+            return tuple(sorted(b))
+        if isinstance(b, dict):
+            return tuple(sorted(b.items()))
+        return b
+
+    return tuple(sorted((a, fz(b)) for a, b in k.items()))
 
 
 _CACHE = {}
